@@ -745,16 +745,26 @@ func (rep *Report) finish(o *checkOpts) int {
 	}
 	// contract-level assumptions: assume-at clauses, preconditions that partial callers assume, axioms,
 	// and the assumed (extern) contracts of the functions called from the functions under contract
+	onPanic := map[string]bool{}
 	for _, fc := range rep.w.functionsForProp(o.prop) {
 		for _, cl := range fc.Clauses {
 			lab := cl.Label
 			if cl.Kind == "assume" {
 				assumptions = append(assumptions, fmt.Sprintf("%s.%s: assumed at %s: %s: %s", fc.Pkg, fc.Name, cl.Anchor, lab, truncate(cl.Text, 240)))
 			}
+			if cl.Kind == "ensures-on-panic" && !fc.Extern {
+				onPanic[fc.Pkg+"."+fc.Name] = true
+			}
+			if cl.Kind == "ensures-on-panic" && fc.Extern {
+				assumptions = append(assumptions, fmt.Sprintf("%s.%s: assumed exceptional postcondition (holds when it panics): %s", fc.Pkg, fc.Name, truncate(cl.Text, 240)))
+			}
 			if cl.Kind == "requires" && strings.HasPrefix(lab, "safety") {
 				assumptions = append(assumptions, fmt.Sprintf("%s.%s: precondition %s is assumed (not proved) at call sites inside partially verified callers: %s", fc.Pkg, fc.Name, lab, truncate(cl.Text, 240)))
 			}
 		}
+	}
+	for _, k := range sortedKeys(onPanic) {
+		assumptions = append(assumptions, k+": exceptional postconditions (ensures-on-panic) are checked at calls of callees that may panic (may-panic flag, panics-when clause, no contract, function value) and at explicit panics; a callee under contract with neither flag is taken not to panic; run-time panics (nil dereference, index) inside the function itself are the safety obligations, not exceptional exits")
 	}
 	for _, ax := range rep.w.cs.Axioms {
 		if !ax.Lemma {
